@@ -287,16 +287,74 @@ def copy_harness(grad_kind, const_kind):
     return h
 
 
+def replay_op_harness(has_creator):
+    """Tensor._replay_op(*input_vars): re-creates a view after an in-place update.
+    ensures  raises DisconnectedView iff self has no creator;
+    ensures  otherwise returns exactly  self._op(type(creator), *input_vars, op_args=creator.replay_args,
+             op_kwargs=creator.replay_kwargs, constant=creator.replay_force_constant)  -- in particular the flag that was forced
+             on the original view is forced on, *and recorded for*, every later replay (C10: an in-place target keeps its flag)."""
+
+    def h(ctx: Ctx):
+        from pyvc.interp import Opaque, SObj
+
+        cfg = Config()
+        cfg.builtins = default_builtins()
+        interp = Interp(ctx, cfg)
+        T = interp.global_lookup(interp.module(TB), "Tensor")
+        rec = []
+        ret = Opaque("replayed view")
+        ret_fields = {}
+
+        class Ret:
+            def __sym_setattr__(self, interp_, name, v):
+                ret_fields[name] = v
+
+        retobj = Ret()
+        cfg.summaries[f"{TB}:Tensor._op"] = lambda i_, a, k: (rec.append((a, k)), retobj)[1]
+
+        class Creator:
+            replay_args = Opaque("replay_args")
+            replay_kwargs = Opaque("replay_kwargs")
+            replay_force_constant = Opaque("replay_force_constant")
+
+            def __sym_type__(self, interp_):
+                return CreatorCls
+
+        CreatorCls = Opaque("type(creator)")
+        cr = Creator() if has_creator else None
+        me = SObj(T, dict(_creator=cr), label="self")
+        f, _ = T.lookup(interp, "_replay_op")
+        x1, x2 = Opaque("input 1"), Opaque("input 2")
+        meta = dict(function=f"{TB}:Tensor._replay_op", has_creator=has_creator)
+        try:
+            r = interp.call(f, [me, x1, x2], {})
+        except SymRaise as e:
+            ctx.oblige("C04.replay.DisconnectedView_iff_no_creator", (not has_creator) and e.exc.cls_name() == "DisconnectedView", raised=e.exc.cls_name(), **meta)
+            return
+        ctx.oblige("C04.replay.returns_only_with_creator", has_creator, **meta)
+        ok = len(rec) == 1
+        ctx.oblige("C04.replay.single_op_call", ok, **meta)
+        if not ok:
+            return
+        a, k = rec[0]
+        ctx.oblige("C04.replay.same_operation_class_and_inputs", len(a) == 4 and a[1] is CreatorCls and a[2] is x1 and a[3] is x2, **meta)
+        ctx.oblige("C04.replay.recorded_arguments_reused", k.get("op_args") is Creator.replay_args and k.get("op_kwargs") is Creator.replay_kwargs, **meta)
+        ctx.oblige("C10.replay.forced_flag_passed_to_op", k.get("constant", "missing") is Creator.replay_force_constant and set(k) == {"op_args", "op_kwargs", "constant"}, **meta)
+        ctx.oblige("C04.replay.result_returned_untouched", r is retobj and not ret_fields, **meta)
+
+    return h
+
+
 def obligations(tier="quick"):
     out = []
     info = {"functions": {}, "unsupported": [], "paths": 0}
-    for q in (f"{DG}:reroute_ops_through", f"{DG}:mirror_tensor", f"{TB}:Tensor.__init__", f"{TB}:Tensor.copy"):
+    for q in (f"{DG}:reroute_ops_through", f"{DG}:mirror_tensor", f"{TB}:Tensor.__init__", f"{TB}:Tensor.copy", f"{TB}:Tensor._replay_op"):
         try:
             _m, node, _c = frontend.find(q)
             info["functions"][q] = frontend.source_hash(node)
         except frontend.ExtractionError as e:
             info["unsupported"].append(str(e))
-    hs = [("reroute", reroute_harness), ("mirror", mirror_harness)] + [(f"copy[{g},{c}]", copy_harness(g, c)) for g in ("none", "some") for c in ("none", "given")]
+    hs = [("reroute", reroute_harness), ("mirror", mirror_harness)] + [(f"copy[{g},{c}]", copy_harness(g, c)) for g in ("none", "some") for c in ("none", "given")] + [(f"replay[{c}]", replay_op_harness(c)) for c in (True, False)]
     for name, h in hs:
         results = explore(h)
         k = 0
